@@ -330,6 +330,7 @@ class Problem:
         self.forward = None     # () -> tuple of tensors
         self.probe = None       # () -> list of tensors: evaluates the caller's object once (counter paused)
         self.keep = []          # things to keep alive
+        self.marks = [0]
         self.attached = False   # the last forward returned a tensor attached to an autograd graph
         self.retain = False     # the objects hold derived (non-leaf) tensors computed once: repeated backward passes
                                 # through that derivation need retain_graph=True
@@ -635,6 +636,7 @@ def run_phases(pb, phase, wseed=0):
     g = gen.seeded(wseed)
     outs = pb.forward()
     pb.attached = any(o.requires_grad for o in outs)
+    pb.marks = [pb.counter.n]        # evaluations of the user's code up to the end of each stage
     res = [o.detach().clone() for o in outs]
     if phase == 0 or not pb.wrt:
         return res
@@ -647,6 +649,7 @@ def run_phases(pb, phase, wseed=0):
     gs = torch.autograd.grad(loss, pb.wrt, create_graph=(phase == 2), allow_unused=True,
                              retain_graph=(True if (pb.retain or phase == 2) else None))
     res += [None if gi is None else gi.detach().clone() for gi in gs]
+    pb.marks.append(pb.counter.n)
     if phase == 2:
         terms = None
         for gi in gs:
